@@ -259,7 +259,21 @@ def t2(run, T):
     okm = len(mls) == 1 and mentions(ex.operand(mls[0]["args"][1]), lambda z: z[0] in ("field", "param") and "end" in z[2]) and \
         mentions(ex.operand(mls[0]["args"][4]), lambda z: z[0] == "agg" and z[2] in ("Some",)) and \
         strip(ex.operand(mls[0]["args"][3]))[0] == "agg" and strip(ex.operand(mls[0]["args"][3]))[2] == "None"
-    if okc and okm:
+    # every definition of the line handed to marker_line ends at the circle's centre (no alternative that keeps the
+    # original end point)
+    alts_bad = []
+    if okm:
+        endv = strip(ex.operand(mls[0]["args"][1]))
+        base = strip(endv[1]) if endv[0] == "field" else endv
+        alts = [strip(x) for x in base[1]] if base[0] == "phi" else [base]
+        alts = [strip(a[1]) if a[0] == "field" and tuple(a[2])[-1:] == ("end",) else a for a in alts]
+        for a in alts:
+            if not (a[0] == "call" and a[1].endswith("line::Line::new_noswap") and len(a[2]) == 3 and strip(a[2][1]) == ("param", 2, ("center",))):
+                alts_bad.append(expr_str(a)[:80])
+    if okc and okm and alts_bad:
+        run.bad("C14.T2", "marker-end-alternative", where(mls[0]),
+                "merge_circle: one definition of the marker line is `%s`, whose end is not the circle's centre: the bullet marker is drawn away from the centre of the bullet's cell" % alts_bad[0])
+    elif okc and okm:
         run.ok("C14.T2", "the marked (end) point of the marker line is the circle's centre", where(ns[0]))
     else:
         run.bad("C14.T2", "marker-end", where(prog.bodies[mc]), "merge_circle: new end is circle.center=%s, marker placed at the end=%s" % (okc, okm))
